@@ -100,6 +100,10 @@ Definition n_colr := name4 99 111 108 114.
 Definition n_clap := name4 99 108 97 112.
 Definition n_schm := name4 115 99 104 109.
 Definition n_cslg := name4 99 115 108 103.
+Definition n_senc := name4 115 101 110 99.
+Definition n_emsg := name4 101 109 115 103.
+Definition n_elng := name4 101 108 110 103.
+Definition n_kind := name4 107 105 110 100.
 Definition n_nclx := name4 110 99 108 120.
 Definition n_nclc := name4 110 99 108 99.
 Definition n_rICC := name4 114 73 67 67.
@@ -183,7 +187,11 @@ Inductive leaf :=
 | LColr (ctype : list N) (prim trans matrix : N) (fullRange : bool) (payload : list N)  (* ICCProfile / UnknownPayload *)
 | LClap (wn wd hn hd_ hon hod von vod : N)
 | LSchm (version flags : N) (stype : list N) (sversion : N) (uri : list N)
-| LCslg (version flags shift least greatest cstart cend : N).
+| LCslg (version flags shift least greatest cstart cend : N)
+| LSenc (flags count : N) (raw : list N) (readSize : N) (notParsed : bool)   (* rawData, readBoxSize, readButNotParsed *)
+| LEmsg (version flags timescale ptime dur id : N) (scheme value data : list N)
+| LElng (missing : bool) (version flags : N) (lang : list N)                  (* missingFullBox *)
+| LKind (version flags : N) (scheme value : list N).
 
 Definition leaf_name (l : leaf) : list N :=
   match l with
@@ -201,6 +209,7 @@ Definition leaf_name (l : leaf) : list N :=
   | LUrl _ _ _ _ _ => n_url | LAvcC _ _ _ _ _ _ _ _ _ _ => n_avcC | LBtrt _ _ _ => n_btrt | LPasp _ _ => n_pasp
   | LColr _ _ _ _ _ _ => n_colr | LClap _ _ _ _ _ _ _ _ => n_clap | LSchm _ _ _ _ _ => n_schm
   | LCslg _ _ _ _ _ _ _ => n_cslg
+  | LSenc _ _ _ _ _ => n_senc | LEmsg _ _ _ _ _ _ _ _ _ => n_emsg | LElng _ _ _ _ => n_elng | LKind _ _ _ _ => n_kind
   end.
 
 Definition unity_matrix : list N :=
@@ -668,6 +677,68 @@ Definition dec_schm (h : hdr) : parser (leaf * rsvT) :=
     (pdo uri <- rd_zt (payload_len h) ;; pret (LSchm (vf_version vf) (vf_flags vf) st sv uri, []))
   else pret (LSchm (vf_version vf) (vf_flags vf) st sv [], []).
 
+(* ---------------------------------------------------------------- senc (kept raw by DecodeSencSR) *)
+Definition dec_senc (h : hdr) : parser (leaf * rsvT) :=
+  if h_size h <? 16 then pfail else
+  pdo vf <- rd 4 ;;
+  if 0 <? vf_version vf then pfail else
+  pdo cnt <- rd 4 ;;
+  let fl := vf_flags vf in
+  (* nrDataBytes := payloadLen - 8, checked against the sub-sample minimum since repo commit b8f1424 (it was
+     Size-16: with a large-size header a senc without data got through and Encode panicked, finding C01-F5) *)
+  if payload_len h <? 8 then pfail else
+  if has fl 2 && (payload_len h - 8 <? 2 * cnt) then pfail else
+  pdo raw <- rdB (payload_len h - 8) ;;
+  pret (LSenc fl cnt raw (h_size h - h_len h + 8) (negb ((cnt =? 0) || (lenN raw =? 0))), []).
+
+(* ---------------------------------------------------------------- emsg *)
+Definition dec_emsg (h : hdr) : parser (leaf * rsvT) :=
+  pdo vf <- rd 4 ;;
+  let v := vf_version vf in let pl := payload_len h in
+  (* remainingBytes := int(hdr.Size) - (bytes read + boxHeaderSize) *)
+  let tail (used : N) (mk : list N -> leaf) : parser (leaf * rsvT) :=
+    if used + 8 <? h_size h then (pdo d <- rdB (h_size h - (used + 8)) ;; pret (mk d, [])) else pret (mk [], []) in
+  if v =? 1 then
+    (pdo ts <- rd 4 ;; pdo pt <- rd 8 ;; pdo du <- rd 4 ;; pdo id <- rd 4 ;;
+     pdo sc <- rd_zt (pl - 24 - 1) ;;
+     pdo va <- rd_zt (pl - (24 + lenN sc + 1)) ;;
+     tail (24 + lenN sc + 1 + lenN va + 1) (LEmsg v (vf_flags vf) ts pt du id sc va))
+  else if v =? 0 then
+    (pdo sc <- rd_zt (pl - 4 - 17) ;;
+     pdo va <- rd_zt (pl - (4 + lenN sc + 1) - 16) ;;
+     pdo ts <- rd 4 ;; pdo pt <- rd 4 ;; pdo du <- rd 4 ;; pdo id <- rd 4 ;;
+     tail (4 + lenN sc + 1 + lenN va + 1 + 16) (LEmsg v (vf_flags vf) ts pt du id sc va))
+  else pfail.
+
+(* ---------------------------------------------------------------- elng / kind *)
+(* ReadZeroTerminatedString that also says where the reader stands after a failed scan (at maxPos) *)
+Fixpoint ztf (bs : list N) (n : N) {struct bs} : option (list N) * list N :=
+  if n =? 0 then (None, bs) else
+  match bs with
+  | [] => (None, [])
+  | c :: t => if c =? 0 then (Some [], t)
+              else match ztf t (n - 1) with (Some s, r) => (Some (c :: s), r) | (None, r) => (None, r) end
+  end.
+(* a payload below 7 bytes is read as a bare string and the read error is dropped (`return &b, nil`): without a
+   terminator the language is empty.  The bytes scanned are kept as chunk 0 (what the encoder writes there is
+   the language and its terminator) *)
+Definition dec_elng (h : hdr) : parser (leaf * rsvT) :=
+  let pl := payload_len h in
+  if pl <? 7 then
+    fun bs => match ztf bs pl with
+              | (Some s, r) => Ok ((LElng true 0 0 s, [s ++ [0]]), r)
+              | (None, r) => Ok ((LElng true 0 0 [], [firstn (length bs - length r) bs]), r)
+              end
+  else
+    pdo vf <- rd 4 ;;
+    if negb (vf =? 0) then pfail else
+    pdo s <- rd_zt (pl - 4) ;; pret (LElng false 0 0 s, [s ++ [0]]).
+Definition dec_kind (h : hdr) : parser (leaf * rsvT) :=
+  pdo vf <- rd 4 ;;
+  pdo sc <- rd_zt (payload_len h - 5) ;;
+  pdo va <- rd_zt (payload_len h - (4 + lenN sc + 1)) ;;
+  pret (LKind (vf_version vf) (vf_flags vf) sc va, []).
+
 (* ---------------------------------------------------------------- encoders (bodies) *)
 Definition ok_bytes (l : list N) : res (list N) := Ok l.
 
@@ -786,6 +857,16 @@ Definition body_leaf (l : leaf) (r : rsvT) : res (list N) :=
   | LCslg v f a b c d e =>
       let w := if v =? 0 then 4%nat else 8%nat in
       Ok (be_enc 4 (vf_join v f) ++ be_enc w a ++ be_enc w b ++ be_enc w c ++ be_enc w d ++ be_enc w e)
+  | LSenc f cnt raw _ np =>
+      (* not readButNotParsed: perSampleIVSize is 0; with the sub-sample flag the loop indexes the empty SubSamples *)
+      if negb np && has f 2 && (0 <? cnt) then Panic
+      else Ok (be_enc 4 (vf_join 0 f) ++ be_enc 4 cnt ++ (if np then raw else []))
+  | LEmsg v f ts pt du id sc va d =>
+      Ok (be_enc 4 (vf_join v f) ++
+          (if v =? 1 then be_enc 4 ts ++ be_enc 8 pt ++ be_enc 4 du ++ be_enc 4 id ++ sc ++ [0] ++ va ++ [0]
+           else sc ++ [0] ++ va ++ [0] ++ be_enc 4 ts ++ be_enc 4 pt ++ be_enc 4 du ++ be_enc 4 id) ++ d)
+  | LElng missing v f _ => Ok ((if missing then [] else be_enc 4 (N.lor (u32 (v * 16777216)) f)) ++ chunk 0 r)
+  | LKind v f sc va => Ok (be_enc 4 (vf_join v f) ++ sc ++ [0] ++ va ++ [0])
   end.
 
 (* WriteZeroBytes(int(31 - compressorNameLength)) with compressorNameLength := byte(len(name)), in byte arithmetic *)
@@ -807,6 +888,7 @@ Definition dflt_rsv (l : leaf) : rsvT :=
   | LAudio _ _ _ _ _ => [zeros 6; zeros 8; zeros 4; zeros 2]
   | LAvcC _ _ _ _ _ _ _ _ _ _ => [[63]; [7]; [63]; [31]; [31]; []]
   | LColr _ _ _ _ _ _ => [[0]]
+  | LElng _ _ _ lang => [lang ++ [0]]
   | _ => []
   end.
 
@@ -819,6 +901,7 @@ Definition rsv_dc (l : leaf) : list bool :=
   | LVisual _ _ _ _ _ _ _ _ => [true; true; true; false; false; true]
   | LAudio _ _ _ _ _ => [true; true; true; false]
   | LAvcC _ _ _ _ _ _ _ _ _ _ => [true; true; true; true; true; false]
+  | LElng _ _ _ _ => [false]
   | _ => []
   end.
 
@@ -880,6 +963,11 @@ Definition size_leaf (l : leaf) : N :=
   | LClap _ _ _ _ _ _ _ _ => 40
   | LSchm _ f _ _ uri => 20 + (if has f 1 then lenN uri + 1 else 0)
   | LCslg v _ _ _ _ _ _ => if negb (v =? 0) then 52 else 32
+  | LSenc _ _ _ rs _ => rs          (* readBoxSize > 0 always after decoding (>= 16) *)
+  | LEmsg v _ _ _ _ _ sc va d =>
+      (if v =? 1 then 8 + 4 + 4 + 8 + 4 + 4 else 8 + 4 + 4 + 4 + 4 + 4) + lenN sc + 1 + lenN va + 1 + lenN d
+  | LElng missing _ _ lang => 8 + 4 + lenN lang + 1 - (if missing then 4 else 0)
+  | LKind _ _ sc va => 8 + 4 + lenN sc + 1 + lenN va + 1
   end.
 
 (* header written by the leaf encoder *)
@@ -909,7 +997,8 @@ Definition leaf_table : list (list N * (hdr -> parser (leaf * rsvT))) :=
     (n_smhd, dec_smhd); (n_nmhd, dec_fullonly); (n_sthd, dec_fullonly); (n_mfro, dec_mfro); (n_mehd, dec_mehd);
     (n_tfra, dec_tfra); (n_pssh, dec_pssh);
     (n_url, dec_url); (n_avcC, dec_avcC); (n_btrt, dec_btrt); (n_pasp, dec_pasp); (n_colr, dec_colr);
-    (n_clap, dec_clap); (n_schm, dec_schm); (n_cslg, dec_cslg) ].
+    (n_clap, dec_clap); (n_schm, dec_schm); (n_cslg, dec_cslg);
+    (n_senc, dec_senc); (n_emsg, dec_emsg); (n_elng, dec_elng); (n_kind, dec_kind) ].
 
 (* boxes with a field prefix followed by child boxes.  PStrict off: DecodeContainerChildrenSR(hdr, startPos+off,
    startPos+hdr.Size) (sizes cross-checked against the bytes consumed); PEntry start: the sample entry loop
@@ -1168,6 +1257,8 @@ Definition hdr_size_field (bs : list N) : N :=
 Definition leaf_guard (l : leaf) : bool :=
   match l with
   | LTrun _ f doff _ _ => negb (has f 1 && (doff =? 0))
+  (* a senc with sample_count 0 keeps its size (readBoxSize) but its data is not written back *)
+  | LSenc _ _ raw _ np => np || (lenN raw =? 0)
   | _ => true
   end.
 
